@@ -53,6 +53,8 @@ class Fn(object):
             n['i'] = i
             for c in n['ch']:
                 self.parent[c] = i
+        self._n_own = len(self.nodes)      # nodes beyond this index are inlined predicate copies (inline_pred)
+        self._inl = {}
         self._mkcfg(d.get('cfg'))
 
     def __repr__(self):
@@ -92,7 +94,68 @@ class Fn(object):
 
     def all_nodes(self):
         """every node including ctor initialisers"""
-        return range(len(self.nodes))
+        return range(self._n_own)
+
+    # ---------------- predicate helpers seen through ----------------
+    _STMT_KEYS = ('init', 'cond', 'then', 'else', 'body', 'lhs', 'sub', 'decls', 'cvar', 'inc', 'range', 'handlers')
+
+    def inline_pred(self, call):
+        """`helper(a, b)` where helper is a resolved, non-virtual function of the same unit whose whole body is
+        `return E;`: a copy of E in this function's node table with the parameters replaced by the argument
+        expressions, so that the facts a branch on the call implies can be read off E.  None when not applicable."""
+        if call in self._inl:
+            return self._inl[call]
+        self._inl[call] = None
+        P = getattr(self, 'P', None)
+        n = self.nodes[call]
+        if P is None or n['k'] not in ('CallExpr', 'CXXMemberCallExpr') or not n.get('callee') or n.get('virt'):
+            return None
+        g = P.fns.get(n['callee'])
+        if g is None or g is self or g.types is not self.types or g.body is None or g.body < 0:
+            return None
+        b = g.nodes[g.body]
+        if b['k'] != 'CompoundStmt' or len(b['ch']) != 1 or g.nodes[b['ch'][0]]['k'] != 'ReturnStmt' or not g.nodes[b['ch'][0]]['ch']:
+            return None
+        if n['k'] == 'CXXMemberCallExpr':
+            o = self.obj(call)
+            if g.record != self.record or o is None or self.nodes[self.strip(o)]['k'] != 'CXXThisExpr':
+                return None
+        elif g.kind not in ('function',) and not g.d.get('static'):
+            if g.record:
+                return None
+        args = self.args(call)
+        if len(args) != len(g.params):
+            return None
+        amap = {p['ref']: a for p, a in zip(g.params, args)}
+        line = n['l']
+
+        def clone(j):
+            m = g.nodes[j]
+            if any(k in m for k in self._STMT_KEYS) or m['k'] in ('LambdaExpr', 'StmtExpr'):
+                raise ValueError(m['k'])
+            if m['k'] == 'DeclRefExpr' and m.get('ref') in amap:
+                return amap[m['ref']]
+            if m['k'] == 'DeclRefExpr' and m.get('ref', '').startswith(('v:', 'p:')):
+                raise ValueError('local')
+            c = dict(m)
+            c['l'] = line
+            c['inl'] = call
+            i = len(self.nodes)
+            c['i'] = i
+            self.nodes.append(c)
+            c['ch'] = [clone(x) for x in m['ch']]
+            for x in c['ch']:
+                if x >= self._n_own:
+                    self.parent[x] = i
+            return i
+        keep = len(self.nodes)
+        try:
+            root = clone(g.nodes[b['ch'][0]]['ch'][0])
+        except ValueError:
+            del self.nodes[keep:]
+            return None
+        self._inl[call] = root
+        return root
 
     def ancestors(self, i):
         while i in self.parent:
@@ -196,7 +259,12 @@ class Fn(object):
             j = self.parent[j]
 
     def const_value(self, i):
-        return self.nodes[self.strip(i)].get('cv', self.nodes[i].get('cv'))
+        v = self.nodes[self.strip(i)].get('cv', self.nodes[i].get('cv'))
+        if v is None and getattr(self, 'P', None) is not None:
+            n = self.nodes[self.strip(i)]
+            if n['k'] in CALL_KINDS and n.get('callee') and not n.get('virt'):
+                v = self.P.const_return(n['callee'])
+        return v
 
     def enclosing(self, i, kinds):
         for a in self.ancestors(i):
@@ -361,6 +429,10 @@ class Fn(object):
                 return self.cond_facts(n['ch'][0], False, depth) + self.cond_facts(n['ch'][1], False, depth)
             return [(i, polarity)]
         out = [(i, polarity)]
+        if k in ('CallExpr', 'CXXMemberCallExpr') and depth < 3:
+            root = self.inline_pred(i)
+            if root is not None:
+                out += self.cond_facts(root, polarity, depth + 1)
         if k == 'DeclRefExpr' and depth < 3 and n.get('ref', '').startswith('v:'):
             src = self.flag_source(n['ref'])
             if src is not None:
@@ -668,6 +740,16 @@ class Fn(object):
             return True
         return False
 
+    def fact_satisfies(self, pred, atom, pol, depth=0):
+        """pred holds for the fact, or the fact is a disjunction (`a && b` false, `a || b` true) each arm of which
+        implies a fact for which pred holds"""
+        if pred(atom, pol):
+            return True
+        n = self.nodes[atom]
+        if depth < 3 and n['k'] == 'BinaryOperator' and ((n.get('op') == '&&' and pol is False) or (n.get('op') == '||' and pol is True)):
+            return all(any(self.fact_satisfies(pred, a, p, depth + 1) for (a, p) in self.cond_facts(c, pol)) for c in n['ch'])
+        return False
+
     def gate_edges(self, pred):
         """edges (from,to,label,tag) whose implied facts satisfy pred(atom, polarity)"""
         out = []
@@ -677,7 +759,7 @@ class Fn(object):
             for tag in tags:
                 for (s, lab, _) in self.state_succ(B.id, tag):
                     for (atom, pol) in self.edge_facts(B.id, lab, tag):
-                        if pred(atom, pol):
+                        if self.fact_satisfies(pred, atom, pol):
                             out.append((B.id, s, lab, tag))
                             break
         # `return <expr>;` is a branch in disguise: the caller sees true only if <expr> was true.  A return whose
@@ -690,7 +772,7 @@ class Fn(object):
                 facts = self.cond_facts(v, True)
             except Exception:
                 facts = []
-            if any(pred(atom, pol) for (atom, pol) in facts):
+            if any(self.fact_satisfies(pred, atom, pol) for (atom, pol) in facts):
                 out.append(('ret', r, None, None, None))
         return out
 
@@ -742,6 +824,8 @@ class Program(object):
             for f in u['functions']:
                 if f['id'] not in self.fns:
                     self.fns[f['id']] = Fn(f, u)
+                    self.fns[f['id']].P = self
+        self._const_ret = {}
         self.by_name = collections.defaultdict(list)
         self.by_bname = collections.defaultdict(list)
         for f in self.fns.values():
@@ -759,6 +843,23 @@ class Program(object):
         if all_:
             return l
         return l[0] if l else None
+
+    def const_return(self, fid):
+        """the constant a (non-virtual, defined) function returns on every path, e.g. a `...; return false;` helper"""
+        if fid in self._const_ret:
+            return self._const_ret[fid]
+        self._const_ret[fid] = None     # recursion guard
+        g = self.fns.get(fid)
+        res = None
+        if g is not None and g.entry is not None:
+            vals = set()
+            for r in g.returns():
+                v = g.ret_value(r)
+                vals.add(g.const_value(v) if v is not None else None)
+            if len(vals) == 1 and None not in vals:
+                res = vals.pop()
+        self._const_ret[fid] = res
+        return res
 
     def fns_in_file(self, path):
         return [f for f in self.fns.values() if f.file == path]
